@@ -127,6 +127,16 @@ CHECKS = {
             'dict-bearing instances) is counted and skipped so that histories continue behind it. Unrelated registered bases: '
             'either handler accepted. Bounds: <= 6 registrations per history.',
             'DESIGN.md section 4 / C13'),
+    'C03': ('Hypothesis type-directed generation of auto-mode spec trees (each sub-spec generated against the value it will '
+            'receive, by reference evaluation of the prefix) vs a direct recursive reference interpreter; named probes give '
+            'call-log equality (once, left to right); metamorphic wrappers (Spec(x), (x,), Pipe(x)) and tuple composition',
+            'Generated-input differential testing: result deep-equal incl. container types and dict key order, error class on '
+            'failure, probe call logs identical (no sub-spec evaluated twice, Coalesce never evaluates alternatives after the '
+            'winner, superseded Invoke keywords not evaluated), SKIP/STOP at every position incl. chains nested in chains, '
+            'glom(t,(a,b)) == glom(glom(t,a),b), Val identity (enumerated).',
+            'Trusted: refauto() in vf/props/c03.py. Order of key vs value evaluation for T/Spec dict keys not asserted. '
+            'Bounds: depth <= 4, width <= 3.',
+            'DESIGN.md section 4 / C03'),
 }
 
 NOT_YET = 'check not built yet in this session (design in DESIGN.md section 4); will be claimed once its check is quiet on the unchanged tree'
